@@ -12,7 +12,8 @@ import (
 	"crypto/md5"
 	gorsa "crypto/rsa"
 	"crypto/sha1"
-	"crypto/sha256"
+	_ "crypto/sha256"
+	_ "crypto/sha512"
 	"fmt"
 	"io"
 	"time"
@@ -111,9 +112,19 @@ func (sc *scenario) synthDHE() (*transcript, error) {
 	var sig []byte
 	var err error
 	if v >= vTLS12 {
-		d := sha256.Sum256(signed)
-		sig, err = gorsa.SignPKCS1v15(nil, rsaKey, crypto.SHA256, d[:])
-		skx = append(skx, 4, 1) // sha256, rsa
+		hid, ch := byte(4), crypto.SHA256
+		switch sc.SynthHash {
+		case 2:
+			hid, ch = 2, crypto.SHA1
+		case 5:
+			hid, ch = 5, crypto.SHA384
+		case 6:
+			hid, ch = 6, crypto.SHA512
+		}
+		h := ch.New()
+		h.Write(signed)
+		sig, err = gorsa.SignPKCS1v15(nil, rsaKey, ch, h.Sum(nil))
+		skx = append(skx, hid, 1) // hash, rsa
 	} else {
 		m, s := md5.Sum(signed), sha1.Sum(signed)
 		sig, err = gorsa.SignPKCS1v15(nil, rsaKey, crypto.MD5SHA1, append(m[:], s[:]...))
